@@ -58,6 +58,21 @@ static Cond cond_of(const Csr<double> &A) {
     K.how = "m-matrix-bound"; return K;
 }
 
+// Probe estimate of ||P||_2 (lower estimate): amplification of three seeded random vectors and of the final residual direction.
+// The rounding noise that P amplifies is unstructured, so the random-probe gain (~ ||P||_F / sqrt(n)) is the relevant scale.
+template <class ApplyP> static double probe_precond_norm(const Csr<double> &A, ApplyP applyP, const std::vector<double> &f, const std::vector<double> &x) {
+    Rng r(0x5eed ^ A.n); double g = 0; std::vector<double> z(A.n);
+    for (int k = 0; k < 4; ++k) {
+        std::vector<double> v;
+        if (k < 3) v = vf::random_vector(A.n, r); else { auto y = vf::spmv_ld(A, x); v.resize(A.n); for (size_t i = 0; i < A.n; ++i) v[i] = (double)((long double)f[i] - y[i]); }
+        double nv = vf::norm2(v); if (!(nv > 0) || !std::isfinite(nv)) continue;
+        std::fill(z.begin(), z.end(), 0.0); applyP(v, z); double nz = vf::norm2(z);
+        if (!std::isfinite(nz)) return std::numeric_limits<double>::infinity();
+        g = std::max(g, nz / nv);
+    }
+    return g;
+}
+
 struct Problem { Csr<double> A; std::string family; J desc; Cond K; bool model = false; int block = 1; };
 
 static Problem gen_problem(Rng &r, int fam, size_t nmax) {
@@ -103,7 +118,10 @@ static Outcome monitored_solve(Case &c, const Csr<double> &A, const Cond &K, con
         std::vector<double> fcopy = f;
         std::tie(o.iters, o.res) = S(fcopy, x);
         auto applyP = [&](const std::vector<double> &r, std::vector<double> &z) { S.precond().apply(r, z); };
-        vf::check_truthful(c, cs, A, f, x0, x, o.iters, o.res, K, applyP, tag, &o.tru);
+        Cond Kc = K; Kc.normP = probe_precond_norm(A, applyP, f, x);
+        if (vf::opt_int("debug", 0)) fprintf(stderr, "%s: iters=%zu res=%g normA=%g normAinv=%g normP~%g\n", vf::cfg_name(cs.cfg).c_str(), o.iters, o.res, K.normA, K.normAinv, Kc.normP);
+        if (Kc.normP > 10 * K.normAinv) vf::obs_sum("calls_with_preconditioner_norm_above_10x_inverse_norm");
+        vf::check_truthful(c, cs, A, f, x0, x, o.iters, o.res, Kc, applyP, tag, &o.tru);
         vf::obs_sum("solves"); vf::obs_add("cells_covered", std::string(p.get<std::string>("precond.coarsening.type")) + "+" + p.get<std::string>("precond.relax.type") + "+" + vf::cfg_name(cs.cfg));
     } catch (const std::exception &e) { o.threw = true; o.what = e.what(); vf::obs_sum("exceptions_not_counted_as_violation"); }
     return o;
